@@ -416,6 +416,12 @@ func (e *Exception) valueString() (s string) {
 	}
 	defer func() {
 		if x := recover(); x != nil {
+			// an uncatchable (interrupt, stack overflow) raised by the conversion is swallowed here: if control is
+			// outside the Runtime do what RunProgram / Callable / Try do, so that the interrupt flag and the pending
+			// jobs do not leak into the next call
+			if r := obj.runtime; len(r.vm.callStack) == 0 && asUncatchableException(x) != nil {
+				r.leaveAbrupt()
+			}
 			s = "[exception value of class " + obj.ClassName() + " cannot be converted to a string]"
 		}
 	}()
